@@ -13,6 +13,10 @@
     validateTotal     tax.Total / CategoryTotal / RateTotal .Validate   code and rates required; country and `ext` of every rate of a stored summary
     addonRegistered   tax.AddonRegistered
     currencyKnown     currency.Code validation         code ∈ definitions
+    hasValidKeyIn     cbc.HasValidKeyIn (hasKeyRule)   blank, or the base before the first `+` ∈ keys
+    validateMeansKey  pay.Instructions / Advance .Key  HasValidKeyIn over the published means keys
+    validateNoteKey   org.Note.Key                     validation.In over the published note keys
+    validateTermsKey  pay.Terms.Key                    validation.In over the published term keys
     countryKnown      l10n code validation             code ∈ published code list
 
   Core Lean only.  `Generated/Defs.lean` (regenerated from /repo/data/** on every
@@ -138,6 +142,43 @@ def splitPlus : List Char → List Char → List (List Char)
 
 /-- `cbc.Key.Has`: one of the `+`-separated parts equals `ke` -/
 def keyHas (k ke : String) : Bool := (splitPlus k.toList []).any (· == ke.toList)
+
+/-- `cbc.Key.HasPrefix`: the part before the first `+` equals `ke` -/
+def keyHasPrefix (k ke : String) : Bool := (splitPlus k.toList []).head?.getD [] == ke.toList
+
+/-- `cbc.HasValidKeyIn(keys…)` (`hasKeyRule.Validate`): blank, or the BASE of the key (the
+    part before the first `+`) is one of the keys -/
+def hasValidKeyIn (keys : List String) (k : String) : Bool := k == "" || keys.any (keyHasPrefix k)
+
+/-! ## key sets published in the schemas (`Generated.Defs.keySets`, read from
+    data/schemas/pay/instructions.json, pay/advance.json, pay/terms.json, org/note.json:
+    the `const` members of the `anyOf` / `oneOf` of the `key` property) -/
+
+abbrev KeySets := List (String × List String)
+
+def KeySets.get (ks : KeySets) (name : String) : List String := (ks.lookup name).getD []
+
+/-- `pay.Instructions.Key` (`validation.Required, HasValidMeansKey`) and `pay.Advance.Key`
+    (`HasValidMeansKey`): `HasValidKeyIn` over the payment means keys -/
+def validateMeansKey (ks : KeySets) (required : Bool) (k : String) : Bool :=
+  (!required || k != "") && hasValidKeyIn (ks.get "pay/means") k
+
+/-- `org.Note.Key` (`validation.In(validNoteKeys()…)`; `In` passes an empty value) -/
+def validateNoteKey (ks : KeySets) (k : String) : Bool := k == "" || (ks.get "org/note").contains k
+
+/-- `pay.Terms.Key` (`validation.In(validTermKeys()…)`) -/
+def validateTermsKey (ks : KeySets) (k : String) : Bool := k == "" || (ks.get "pay/terms").contains k
+
+/-- reference positions the code leaves OPEN (key syntax only, no rule compares the value
+    with a definition; the published schemas are open there too: a plain `$ref` to cbc/key or
+    an `anyOf` ending in the key pattern): `org.Identity.key` / `type` (the regimes'
+    `identities` are informational), `org.Inbox.key`, `org.Item.key`, `bill.Charge.key`,
+    `bill.Discount.key`, `bill.LineCharge.key`, `bill.LineDiscount.key`, `org.Note.src`,
+    `org.DocumentRef.type`, `head.Link.key`, `pay.Online.key`, `tax.Identity.type` -/
+def openKeyPositions : List String :=
+  ["org.Identity.key", "org.Identity.type", "org.Inbox.key", "org.Item.key", "bill.Charge.key", "bill.Discount.key",
+   "bill.LineCharge.key", "bill.LineDiscount.key", "org.Note.src", "org.DocumentRef.type", "head.Link.key",
+   "pay.Online.key", "tax.Identity.type"]
 
 /-! ## the documents' reference positions -/
 
